@@ -5,6 +5,7 @@ import (
 	"go/token"
 	"go/types"
 	"os"
+	"strings"
 
 	"golang.org/x/tools/go/ssa"
 )
@@ -32,6 +33,10 @@ func (F *bfn) decideCmp(cmp *ssa.BinOp, site ssa.Instruction, b *ssa.BasicBlock)
 	F.floatFacts(z, cmp.X, b)
 	F.floatFacts(z, cmp.Y, b)
 	X, Y := F.linear(cmp.X), F.linear(cmp.Y)
+	if os.Getenv("SIZERCHECK_DEBUGFOLD") != "" && strings.Contains(fnName(F.f), os.Getenv("SIZERCHECK_DEBUGFOLD")) {
+		z.close()
+		fmt.Printf("debugfold %s: %s %s %s  X=%+v Y=%+v atoms=%v\n", fnName(F.f), cmp.X.Name(), cmp.Op, cmp.Y.Name(), X, Y, z.idx)
+	}
 	le := func(A, B zLin) bool { return z.proveLE(A, B) }
 	lt := func(A, B zLin) bool { A.k++; return z.proveLE(A, B) }
 	// a contradictory zone (unreachable code) proves everything: leave it
